@@ -51,6 +51,7 @@ ASSUMPTIONS = [
 ENTRY = 'Sheet1!A1'
 S1 = 'Sheet1'
 TRUTH_VALUES = [True, False, 0, 1, 2.5, -1, None]      # None = blank (no such cell)
+MAGNITUDES = [5e-324, 1e-300, 1e-20, 4e-16, -2.5e-17, -1e-15, 1e-9, 1e300, -1e300, 0.0, -0.0]
 NA = ('err', '#N/A')
 DIV0 = ('err', '#DIV/0!')
 
@@ -309,6 +310,21 @@ def exhaustive_cases(thorough):
         ('and-range3', lambda: ('and', [spyw(1, rng('B1:B3')), spyw(2, lit(True))])),
         ('or-range3', lambda: ('or', [spyw(1, rng('B1:B3')), spyw(2, lit(True))])),
     ]
+    # numbers are TRUE exactly when non-zero, whatever their magnitude: denormals, values below any "noise"
+    # threshold, huge values — as cell values, as literals of the formula, and as range members
+    for tag, mk in shapes1:
+        for v in MAGNITUDES:
+            cases.append(Case(tag + '-magnitude', consts_of((v,)), [], mk()))
+    for tag, mk in shapes2:
+        for v in MAGNITUDES:
+            for other in (False, 0, True, None):
+                cases.append(Case(tag + '-magnitude', consts_of((v, other)), [], mk()))
+                cases.append(Case(tag + '-magnitude', consts_of((other, v)), [], mk()))
+    for v in MAGNITUDES:
+        cases.append(Case('if3-literal-magnitude', {}, [], ('if3', lit(v), s1, s2)))
+        cases.append(Case('not-literal-magnitude', {}, [], ('not', lit(v))))
+        cases.append(Case('and-literal-magnitude', {}, [], ('and', [spyw(1, lit(v)), spyw(2, lit(True))])))
+        cases.append(Case('or-literal-magnitude', {}, [], ('or', [spyw(1, lit(v)), spyw(2, lit(False))])))
     # explicit empty-text cells (set_cell_value(addr, '')) next to blanks and never-set range members
     withempty = TRUTH_VALUES + ['']
     for tag, mk in shapes1[:5] + shapes1[10:12]:
